@@ -214,3 +214,58 @@ Definition caller_bound (g : gst) (t : nat) (n : nat) (is_thr : bool) : Prop :=
 
 Definition body_of (g : gst) (t : nat) : list bstep :=
   match ts_phase (thread g t) with PIdle b => b | _ => [] end.
+
+(* ------------------------------------------------------------------ histories: several calls per thread, ordinary writes in between *)
+(* what a thread does, in order: a hub.doInTransaction(body), or one ordinary write through the hub outside any
+   doInTransaction (the connection the hub resolves to is in autocommit mode: the write is durable at once).  Ordinary
+   writes are the steps that do not depend on the parent connection's instance cache: Cls(...), an assignment to /
+   destroySelf of an instance loaded at the start, Cls.deleteMany *)
+Inductive item := ICall (body : list bstep) | IPlain (st : bstep).
+
+Definition plain_step (g : gst) (t : nat) (st : bstep) : gst * result :=
+  match resolve g t with
+  | None => (g, Raised XNoConnection 0)
+  | Some (CTx _) => (g, Raised XNested 0)               (* outside the model: the hub resolves to somebody's transaction *)
+  | Some (CDb _) =>
+      match g_lock g with
+      | Some _ => (g, Raised XLocked 0)                 (* a transaction holds sqlite's write lock *)
+      | None =>
+          let v := g_committed g in
+          match st with
+          | BCreate a b => let '(id, v') := tbl_insert [a; b] v in (with_gcommitted g v', Return [id])
+          | BWrite id c x => (with_gcommitted g (tbl_update id c x v), Return [])
+          | BErase id => (with_gcommitted g (tbl_delete id v), Return [])
+          | BDeleteMany id => (with_gcommitted g (tbl_delete id v), Return [])
+          | _ => (g, Raised XNested 0)                  (* not an ordinary write of this model *)
+          end
+      end
+  end.
+
+Record hst := {
+  h_g : gst;
+  h_todo : list (list item);           (* per thread: what is still to do *)
+  h_plain : list (option result)       (* per thread: the outcome of its last ordinary write *)
+}.
+
+(* a thread that is between calls shows the result of its last call; before its first one: nothing yet *)
+Definition nothing_yet : phase := PDone (Return []) None.
+
+Definition htick (h : hst) (t : nat) : hst :=
+  let g := h_g h in
+  match ts_phase (thread g t) with
+  | PRun _ _ _ _ _ _ _ | PIdle _ =>
+      {| h_g := tick g t; h_todo := h_todo h; h_plain := h_plain h |}
+  | PDone _ _ =>
+      match nth t (h_todo h) [] with
+      | [] => h
+      | ICall body :: rest =>
+          let g1 := set_thread g t (ts_slot (thread g t)) (PIdle body) in
+          {| h_g := tick g1 t; h_todo := set_nth t rest (h_todo h); h_plain := h_plain h |}
+      | IPlain st :: rest =>
+          let '(g1, r) := plain_step g t st in
+          {| h_g := g1; h_todo := set_nth t rest (h_todo h); h_plain := set_nth t (Some r) (h_plain h) |}
+      end
+  end.
+
+Fixpoint hrun (h : hst) (sched : list nat) : hst :=
+  match sched with [] => h | t :: rest => hrun (htick h t) rest end.
